@@ -130,6 +130,19 @@ func TestVerifC05(t *testing.T) {
 			}
 			return c05Pairs[i-len(c05Singles)]
 		},
+		EnumLabels: func(tier string, i int) []string {
+			n := len(c05Singles[0])
+			if i < len(c05Singles) {
+				n = len(c05Singles[i])
+			} else {
+				n = len(c05Pairs[i-len(c05Singles)])
+			}
+			l := []string{"script", "nfaults"}
+			for len(l) < n {
+				l = append(l, "f.end", "f.op", "f.idx", "f.shape")
+			}
+			return l[:n]
+		},
 		Runs:    map[string]int{"quick": 20000, "thorough": 800000},
 		LeakSig: "C05/goroutine-leak",
 		Real:    []string{"pkg/station/lib.Proxy", "pkg/station/lib.halfPipe", "pkg/station/lib.generalizeErr", "tunnelStats / ProxyStats accounting"},
